@@ -2,7 +2,7 @@ import logging
 
 import actions
 import schema
-from objtypes import strict_equal
+from objtypes import equal_encoding, strict_equal
 
 log = logging.getLogger(__name__)
 
@@ -215,10 +215,15 @@ class DocActions(object):
       table.get_column(col_id).copy_from_column(old_column)
       raise
 
-    # Fill in the new column with the values from the old column.
+    # Fill in the new column with the values from the old column. A value that the new type only
+    # changes in a way that isn't visible in its encoding (e.g. 2.0 to 2 when changing Numeric to
+    # Int) never shows up in stored actions, so normalize it here: otherwise re-applying the stored
+    # actions (as for redo) leaves a wrongly-typed value in the column.
     new_column = table.get_column(col_id)
     for row_id in table.row_ids:
-      new_column.set(row_id, old_column.raw_get(row_id))
+      value = old_column.raw_get(row_id)
+      converted = new_column.convert(value)
+      new_column.set(row_id, converted if equal_encoding(value, converted) else value)
 
     # Generate the undo action.
     self._engine.out_actions.undo.append(actions.ModifyColumn(table_id, col_id, undo_col_info))
